@@ -136,16 +136,24 @@ const CRLF: &[u8] = b"\r\n";
 
 /// Replaces all CRLF with LF
 pub fn replace_crlf<'a>(bytes: &'a [u8]) -> Cow<'a, [u8]> {
-    if let Some(index) = bytes.windows(2).position(|window| window == CRLF) {
-        [
-            Cow::from(&bytes[0..index]),
-            replace_crlf(&bytes[index + 1..]),
-        ]
-        .concat()
-        .into()
-    } else {
-        bytes.into()
+    let Some(mut index) = bytes.windows(2).position(|window| window == CRLF) else {
+        return bytes.into();
+    };
+
+    // iterative (not recursive): the number of CRLFs in an output is unbounded
+    let mut replaced = Vec::with_capacity(bytes.len());
+    let mut rest = bytes;
+    loop {
+        // drop the CR, keep the LF as the start of the remainder
+        replaced.extend_from_slice(&rest[0..index]);
+        rest = &rest[index + 1..];
+        match rest.windows(2).position(|window| window == CRLF) {
+            Some(next) => index = next,
+            None => break,
+        }
     }
+    replaced.extend_from_slice(rest);
+    replaced.into()
 }
 
 /// Like the [`format`] with an added new line character
